@@ -76,9 +76,14 @@ func (s *Service) HandleHeadEvent(event *apiv1.Event) {
 
 	s.fastTrackJobs(ctx, data.Slot)
 
-	// Remove old subscriptions if present.
+	// Remove old subscriptions if present.  All of them rather than just those of two epochs ago,
+	// as an epoch without a timely head event carries out no housekeeping.
 	s.subscriptionInfosMutex.Lock()
-	delete(s.subscriptionInfos, s.chainTimeService.SlotToEpoch(data.Slot)-2)
+	for subscriptionEpoch := range s.subscriptionInfos {
+		if subscriptionEpoch+2 <= epoch {
+			delete(s.subscriptionInfos, subscriptionEpoch)
+		}
+	}
 	s.subscriptionInfosMutex.Unlock()
 
 	// Only verify on current slot.
